@@ -14,7 +14,8 @@ type timeSeries struct {
 	attack string
 	label  string
 	prev   uint64
-	data   *tsz.Series
+	data   *tsz.Series   // the block points are being added to
+	full   []*tsz.Series // earlier blocks, in order
 	len    int
 }
 
@@ -37,6 +38,16 @@ func (ts *timeSeries) add(t uint64, v float64) error {
 	// timestamp zero for "no point yet", so that the next one is stored as
 	// a first point again. Start the block at the first point and keep
 	// timestamps above zero, or later points come out truncated.
+	//
+	// The distance between two neighbouring points is stored in 32 bits
+	// (49.7 days in milliseconds): a point further away than that from the
+	// one before it starts a block of its own.
+	if ts.data != nil && t-ts.prev >= 1<<31 {
+		ts.data.Finish()
+		ts.full = append(ts.full, ts.data)
+		ts.data = nil
+	}
+
 	if ts.data == nil {
 		ts.data = tsz.New(t + 1)
 	}
@@ -53,16 +64,25 @@ func (ts *timeSeries) iter() lttb.Iter {
 		return func(int) ([]lttb.Point, error) { return nil, nil }
 	}
 
-	it := ts.data.Iter()
+	blocks := append(append([]*tsz.Series(nil), ts.full...), ts.data)
+	it := blocks[0].Iter()
 	return func(count int) ([]lttb.Point, error) {
 		ps := make([]lttb.Point, 0, count)
-		for i := 0; i < count && it.Next(); i++ {
+		for len(ps) < count {
+			if !it.Next() {
+				if err := it.Err(); err != nil || len(blocks) == 1 {
+					return ps, err
+				}
+				blocks = blocks[1:]
+				it = blocks[0].Iter()
+				continue
+			}
 			t, v := it.Values()
 			ps = append(ps, lttb.Point{
 				X: time.Duration((t - 1) * 1e6).Seconds(),
 				Y: v,
 			})
 		}
-		return ps, it.Err()
+		return ps, nil
 	}
 }
